@@ -151,9 +151,29 @@ class C19(Prop):
         inst = gen.strict_case_instance(case, is_one_euclidean)
         self.count("built:" + ("grown" if case.get("grow") else "direct") + ("+mult" if case.get("mults") else ""))
         from harness import ilpcap
+        import preflibtools.properties.subdomains.ordinal.euclidean as E
         store = []
-        with ilpcap.capture(store):
-            r = call(is_one_euclidean, inst, limit=60)
+        seen_sc = []
+        real_sc = getattr(E, "is_single_crossing", None)
+
+        def recording_sc(*a, **kw):
+            out = real_sc(*a, **kw)
+            try:
+                if out[0] and out[1] is not None:
+                    seen_sc.append([[int(x) for x in o] for o in out[1]])
+            except Exception:
+                pass
+            return out
+        # the arrangement the implementation's own pre-check returns is observed (not altered): any valid
+        # single-crossing arrangement is a correct answer, and the model is evaluated on the one that was used
+        if real_sc is not None:
+            E.is_single_crossing = recording_sc
+        try:
+            with ilpcap.capture(store):
+                r = call(is_one_euclidean, inst, limit=60)
+        finally:
+            if real_sc is not None:
+                E.is_single_crossing = real_sc
         lp_capture = store[0] if len(store) == 1 else ("none" if not store else "several")
         n = len(case["orders"])
         if r[0] == "ok":
@@ -167,7 +187,7 @@ class C19(Prop):
                     emb = "malformed"
             r = ("ok", [bool(v), emb])
         truth, cert = z3_oracle(case["alts"], case["orders"])
-        obs = {"res": r, "truth": truth, "lp": lp_capture}
+        obs = {"res": r, "truth": truth, "lp": lp_capture, "sc_seen": seen_sc[-1] if len(seen_sc) == 1 else None}
         if cert is not None:
             obs["oracle_cert"] = {"voters": [frac_json(x) for x in cert[0]],
                                   "alts": [[a, frac_json(p)] for a, p in cert[1].items()]}
@@ -188,7 +208,8 @@ class C19(Prop):
         if "oracle_cert" in obs:
             embs.append(self._emb(obs["oracle_cert"]))
         return [{"op": "c19.check", "alts": case["alts"], "orders": case["orders"], "embeddings": embs},
-                {"op": "euc.lp", "alts": case["alts"], "orders": case["orders"]}]
+                dict({"op": "euc.lp", "alts": case["alts"], "orders": case["orders"]},
+                     **({"sc": obs["sc_seen"]} if obs.get("sc_seen") else {}))]
 
     def nontrivial_key(self, case, obs):
         return repr(case) if len(case["orders"]) >= 2 and len(case["alts"]) >= 3 else None
